@@ -67,6 +67,28 @@ impl std::io::Read for ShortReader<'_> {
 }
 /// IoReader over a reader with short reads.  On success the position is the
 /// number of bytes consumed (read_exact never over-reads).
+/// a reader that, as `io::Read` allows, reports a spurious `Interrupted` before every delivery
+pub struct EintrReader<'a> {
+	pub inner: ShortReader<'a>,
+	pub tick: u32,
+}
+impl std::io::Read for EintrReader<'_> {
+	fn read(&mut self, buf: &mut [u8]) -> std::io::Result<usize> {
+		self.tick += 1;
+		if self.tick % 2 == 1 {
+			return Err(std::io::Error::from(std::io::ErrorKind::Interrupted));
+		}
+		self.inner.read(buf)
+	}
+}
+pub fn dec_reader_eintr<T: Decode>(bs: &[u8], chunk: usize) -> DRes<T> {
+	guard(|| {
+		let mut rd = IoReader(EintrReader { inner: ShortReader { data: bs, pos: 0, chunk: chunk.max(1) }, tick: 0 });
+		let r = T::decode(&mut rd).ok();
+		r.map(|v| (v, rd.0.inner.pos))
+	})
+}
+
 pub fn dec_reader<T: Decode>(bs: &[u8], chunk: usize) -> DRes<T> {
 	guard(|| {
 		let mut rd = IoReader(ShortReader { data: bs, pos: 0, chunk: chunk.max(1) });
